@@ -8,7 +8,8 @@ from .common import raising_site
 from ndn.encoding import Name, Component
 
 RULE = ('names of 0..8 components from a boundary-biased generator (types 1,2,3,8,9,32,50..58,252..256,1000,65535; '
-        'values empty/one byte/reserved URI chars/dots/digests/typed numbers at width boundaries); a case is '
+        'values empty/one byte/reserved URI chars/dots/digests/typed numbers at width boundaries); conversion histories (results '
+        'handed out earlier are edited in place, then the conversion is repeated); a case is '
         'distinct by its encoded name; non-trivial = at least one component')
 
 ALT_TYPES = (0x32, 0x34, 0x36, 0x38, 0x3A)
@@ -187,6 +188,48 @@ def component_api(ctx, c):
                    {'c': c.hex()})
 
 
+def scribble(x):
+    """Edit in place whatever mutable byte strings a conversion handed out."""
+    n = 0
+    for c in (x if isinstance(x, list) else [x]):
+        if isinstance(c, bytearray) and len(c):
+            c[-1] ^= 0xFF
+            c.append(0x41)
+            n += 1
+    return n
+
+
+def check_history(ctx, comps):
+    """A conversion is a function of its input: a result handed out earlier belongs to the caller, and editing it in place
+    (component objects are documented as bytearray) must not change what the same conversion yields later, for any form."""
+    if not comps or not all(canonical_number(c) for c in comps):
+        return
+    w = {'name': [c.hex() for c in comps]}
+    cu = rc.name_to_uri(comps, canonical=True)
+    u = rc.name_to_uri(comps, canonical=False)
+    strs = [rc.comp_to_canonical_uri(c) for c in comps]
+    steps = [('from_str(canonical-uri)', lambda: Name.from_str(cu)), ('from_str(uri)', lambda: Name.from_str(u)),
+             ('normalize(uri)', lambda: Name.normalize(cu)), ('normalize(list-of-str)', lambda: Name.normalize(list(strs))),
+             ('Component.from_str', lambda: [Component.from_str(x) for x in strs]),
+             ('normalize(list-of-bytes)', lambda: Name.normalize([bytes(c) for c in comps])),
+             ('Component.from_bytes', lambda: [Component.from_bytes(rc.comp_parts(c)[1], rc.comp_parts(c)[0]) for c in comps])]
+    try:
+        edited = 0
+        for label, fn in steps:
+            first = fn()
+            edited += scribble(first)
+            again = fn()
+            if as_list(again) != comps:
+                ctx.report(f'conversion-depends-on-history:{label.split("(")[0]}', f'{label} yields another name after a previously returned result was edited in place', dict(w, step=label, got=[bytes(c).hex() for c in again]))
+        if bytes(Name.to_bytes(cu)) != rc.enc_name(comps) or not Name.is_prefix(cu, rc.enc_name(comps)) or Name.to_str(Name.from_str(cu)) != u:
+            ctx.report('conversion-depends-on-history:later-use', 'after editing previously returned components in place, the URI form no longer denotes the same name', w)
+        ctx.event('history')
+        if edited:
+            ctx.event('history-mutable-result-edited')
+    except Exception as e:   # noqa
+        ctx.report(f'history-raises:{type(e).__name__}@{raising_site(e)[0]}', f'{e!r}', w)
+
+
 def run(ctx):
     ctx.rule = RULE
     rng = ctx.rng
@@ -215,6 +258,8 @@ def run(ctx):
         ctx.extra['exhaustive_subspace'] = 'all 256 one-byte values x all listed component types (shard 0)'
     for comps in corpus:
         check_name(ctx, comps)
+        if len(rc.enc_name(comps)) < 1000:
+            check_history(ctx, comps)
         for c in comps[:2]:
             if len(c) < 1000:
                 component_api(ctx, c)
@@ -224,6 +269,8 @@ def run(ctx):
     for i in range(n_names):
         comps = gen.name(rng)
         check_name(ctx, comps)
+        if i % 4 == 0:
+            check_history(ctx, comps)
         if comps:
             component_api(ctx, comps[rng.randrange(len(comps))])
         ctx.case(rc.enc_name(comps)[:96], sample={'uri': rc.name_to_uri(comps, canonical=True)} if i % 1500 == 7 else None,
@@ -260,7 +307,7 @@ def run(ctx):
         ctx.case(None, nontrivial=False, count=len(pool) ** 2)
         ctx.extra['all_pairs_pool'] = len(pool)
     for k in ('wire', 'canonical-uri', 'uri', 'normalize', 'is-prefix-true', 'is-prefix-false', 'name-order',
-              'component-order'):
+              'component-order', 'history', 'history-mutable-result-edited'):
         ctx.need_event(k)
     ctx.assumptions = ['URI convention is the one python-ndn documents (no extra-period rule; = and % escaped)',
                        'shorthand URI round trip is demanded only for canonically encoded typed numbers']
